@@ -17,7 +17,28 @@ CLAUSES = {"IdAboveRecorded", "DirFresh", "DirEmptyAtStart", "IdUnique", "Record
            "ArchiveReadOnly"}
 
 
+def git_scenario(rng, k):
+    """git-managed project: versions recorded at an older commit, HEAD moves on, then runs that must NOT reuse them
+    (--this-commit, --at-least <newer commit>) next to runs that may: every new execution gets a new directory and the
+    recorded ones stay as they are."""
+    proj = G.base_project(rng, git=True)
+    steps = [{"cmd": "git", "ops": [["checkout", 0]]},
+             G.run_step(rng, 100, target="//:all", again=False, p_fail=0.2),
+             {"cmd": "git", "ops": [["checkout", 1]] + ([["dirty"]] if rng.random() < 0.3 else [])}]
+    clock = 100
+    for _ in range(rng.randrange(2, 5)):
+        clock = max(1, clock + rng.choice([0, 0, 1, 60, -5]))
+        st = G.run_step(rng, clock, target=rng.choice(["//:all", "//:a", "//pk:b", "//:d"]), again=False, p_fail=0.3)
+        st["argv"] += rng.choice([["--this-commit"], ["--at-least", "@commit1"], ["--at-least", "@commit0"], []])
+        steps.append(st)
+        if rng.random() < 0.3:
+            steps.append({"cmd": "git", "ops": [["checkout", rng.choice([0, 1])]]})
+    return {"project": proj, "steps": steps, "tag": k, "git": {"commits": 2}}
+
+
 def scenario(rng, k):
+    if k % 4 == 3:
+        return git_scenario(rng, k)
     proj = G.base_project(rng)
     steps = []
     clock = 100
